@@ -410,7 +410,7 @@ where
 //@     r is Ok && old(self).editor is Some ==> final(self).writer.evs().len() > 0 && final(self).writer.evs().last() is F,   // [C15]
 //@     // C06: behind a freshly written prompt the line is written out and the cursor taken back to the editor's cursor
 //@     r is Ok && old(self).editor is Some && printable_bytes(old(self).editor.unwrap().line_bytes())
-//@         && shows(term_run(old(self).writer.evs()), old(self).prompt@, Seq::<char>::empty(), 0) ==> final(self).displayed(),   // [C06]
+//@         && shows(term_run(old(self).writer.evs()), old(self).prompt@, Seq::<char>::empty(), 0) ==> final(self).displayed(),   // [C06,C13]
 //@ ---
 //@ let ghost evs0 = self.writer.evs();
 //@ let ghost me0 = *self;
@@ -422,7 +422,7 @@ where
             self.writer.write_str(editor.text())?;
 //@ let ghost evs1 = self.writer.evs();
 //@ let ghost t1 = term_run(evs1);
-//@ proof {   // [C06]
+//@ proof {   // [C06,C13]
 //@     lemma_term_push(evs0, Ev::W(lb));
 //@     assert(term_cub_n(t1, 0) == t1);
 //@ }
@@ -432,12 +432,12 @@ where
 //@     it.iter.end == l.len(), cur <= _i <= l.len(), me0.editor is Some, *editor == me0.editor.unwrap(),
 //@     self.writer.errs() == me0.writer.errs(),
 //@     self.prompt == me0.prompt, self.input_generator == me0.input_generator, self.same_hist(&me0),
-//@     term_run(self.writer.evs()) == term_cub_n(t1, _i - cur),   // [C06]
+//@     term_run(self.writer.evs()) == term_cub_n(t1, _i - cur),   // [C06,C13]
 //@     self.writer.evs().len() > 0,
 //@ ---
 //@ let ghost evs2 = self.writer.evs();
                 self.writer.write_bytes(codes::CURSOR_BACKWARD)?;
-//@ proof {   // [C06]
+//@ proof {   // [C06,C13]
 //@     lemma_term_push(evs2, Ev::W(seq_cub()));
 //@     lemma_term_w_controls(term_run(evs2));
 //@     assert(term_cub_n(t1, _i + 1 - cur) == term_cub(term_cub_n(t1, _i - cur)));
@@ -445,7 +445,7 @@ where
             }
 //@ let ghost evs3 = self.writer.evs();
             self.writer.flush()?;
-//@ proof {   // [C06]
+//@ proof {   // [C06,C13]
 //@     lemma_term_push(evs3, Ev::F);
 //@     if printable_bytes(lb) && shows(term_run(evs0), me0.prompt@, Seq::<char>::empty(), 0) {
 //@         lemma_show_put_end(term_run(evs0), me0.prompt@, Seq::<char>::empty(), l);
